@@ -632,6 +632,22 @@ func runC04(s *kernel.Sim) {
 			}
 		}
 		compare("request", id)
+		// a quota's system flow runs its processors once per transaction side
+		s.Rule("R3")
+		{
+			seen := map[string]int{}
+			for _, e := range got[id] {
+				if isSys(e.flow) {
+					seen[e.flow+"/"+e.proc+"/"+e.dir]++
+				}
+			}
+			for _, k := range sortedKeys(seen) {
+				if seen[k] > 1 {
+					s.Violate("R3", "system-flow-processor-ran-twice", "transaction %s: %s ran %d times; executed: %v", id, k, seen[k], got[id])
+					break
+				}
+			}
+		}
 		if refShape {
 			for _, e := range append(append([]ev{}, got[id]...), got[id+"r"]...) {
 				if e.flow == "lib" {
